@@ -9,10 +9,10 @@ func init() {
 	harness.Specs["C14"] = &harness.PropSpec{
 		ID: "C14", Test: "TestC14", Kind: "file", Level: "exploration",
 		Quick: 8000, Thorough: 250000,
-		Rule: "generated history H on (old max, prealloc), close, open with FlagUpdMaxSize and a generated new maximum (larger, smaller >= 64 KiB, equal, unbounded) x " +
+		Rule: "generated history H on (old max, prealloc; transactions may use the overflow area; a quarter of the cases ends H with 'file completely full, overflow transaction'), close, open with FlagUpdMaxSize and a generated new maximum (larger, smaller >= 64 KiB, equal, unbounded) x " +
 			"prealloc, then lock-state probe + BeginReadonly + Begin (content verification and capacity probe), further history K, close, plain open, verification; " +
 			"oracles: model equality across the resize, lock idle right after the open (no blocked Begin), header/allocator/OnOpen report the new limit, after growing " +
-			"the allocatable pages grow by exactly the added pages, after shrinking they do not grow and the file extent stays <= max(previous extent, new limit), the " +
+			"the allocatable pages grow by exactly the added pages (pages of the overflow area beyond the old limit count as used), opens with a max size but without the flag leave the stored limit alone,  after shrinking they do not grow and the file extent stays <= max(previous extent, new limit), the " +
 			"limit persists over a plain reopen; non-trivial = resize with a non-empty overwrite mapping or with free regions beyond the new limit, followed by >=1 " +
 			"committed transaction; distinct = distinct program hash",
 		Assume: []string{
